@@ -147,6 +147,22 @@ def creation_registration(F, R):
         lib.only_under(R, op, F, oks, ods[0], {'Ok'}, 'Ok-only-under-dynamic-config-opened', 'nobody obtains a half-initialised service')
     waits = [s for s in op.sites if s.is_call and re.search(r'open::\{closure#\d+\}$', s.callee or '')]
     R.ob('FLOOR', 'floor::%s::wait() call sites' % fnkey(op), len(waits) >= 2, '%d wait() calls (HangsInCreation arm, dynamic config not ready arm)' % len(waits), op.file, op)
+    open_retry_is_bounded(F, R)
+
+
+def open_retry_is_bounded(F, R):
+    """Builder::open: the retry loop is bounded.  wait() is the only place that compares the elapsed time with the creation timeout, so
+    every way back to the next attempt passes it.  A retry that skips it spins for ever when the creator died mid-initialisation: the
+    surviving process hangs in open() / open_or_create() (C04) instead of getting HangsInCreation."""
+    op = F.fn(B + 'open')
+    waits = [s for s in op.sites if s.is_call and re.search(r'open::\{closure#\d+\}$', s.callee or '')]
+    probe = closure_param_calls(op, 'is_service_available')
+    key = 'LOOP::%s::every-retry-passes-the-deadline-check' % fnkey(op)
+    if probe and waits:
+        pth = op.exists_path(probe[0], [probe[0]], waits)
+        R.ob('LOOP', key, pth is None, 'every cycle of the open() retry loop passes wait() (timeout check)%s' % ('' if pth is None else ' -- a retry without it: blocks %s' % pth), probe[0].where, op)
+    else:
+        R.ob('LOOP', key, False, 'anchor-missing: is_service_available probe (%d) / wait() (%d)' % (len(probe), len(waits)), op.file, op)
 
 
 def drop_rules(F, R):
